@@ -1,3 +1,3 @@
 module simrt
 
-go 1.16
+go 1.21
